@@ -5,8 +5,10 @@ From QCE Require Import Base.Prelude Core.Model Core.Run.
 From Gen Require Import Ident Classes.
 Open Scope Z_scope.
 
-Definition case := Core.Run.case.
-Definition agree (c : case) : bool := agree_core c.
+From QCE Require Import Lib.Run.
+(* a case is either a generated build program (Core) or a library-built circuit (Lib) *)
+Inductive case := KCore (c : Core.Run.case) | KLib (l : lcase).
+Definition agree (c : case) : bool := match c with KCore x => agree_core x | KLib l => agree_lib l end.
 
 (* expected multiset: every leaf of the program, product-of-enclosing-counts times *)
 Record lkey := { lk_cls : Z; lk_chans : list ChannelIdentifier; lk_d : Z; lk_tag : Z }.
@@ -42,7 +44,7 @@ Definition multi_ok (o : oentry) : bool :=
 Definition zmax_list (d : Z) (l : list Z) : Z := match l with [] => d | x :: t => fold_left Z.max t x end.
 Definition is_rel_leaf (ops : list oentry) (i : Z) : bool := negb (existsb (fun o => oe_refpos o =? i) ops).
 Definition flat_body (b : list cmd) : bool := forallb (fun c => match c with CSub _ _ => false | _ => true end) b.
-Definition nT_ok (c : case) : bool :=
+Definition nT_ok (c : Core.Run.case) : bool :=
   match c_prog c, c_plain c, c_unrolled c with
   | [CSub n body], Some pl, Some un =>
       if flat_body body then
@@ -58,7 +60,7 @@ Definition nT_ok (c : case) : bool :=
   | _, _, _ => true
   end.
 
-Definition spec_ok (c : case) : bool :=
+Definition spec_core (c : Core.Run.case) : bool :=
   match c_unrolled c with
   | None => true
   | Some un =>
@@ -68,3 +70,7 @@ Definition spec_ok (c : case) : bool :=
       && (match c_unrolled_twice c with Some u2 => obs_eqb un u2 | None => true end)
       && nT_ok c
   end.
+
+(* library clause: the unrolled listing of every repeated block is the n-fold concatenation of the block's listing; after
+   unrolling every count is 1 (checked through the Core clauses on the extracted structure by `agree`) *)
+Definition spec_ok (c : case) : bool := match c with KCore x => spec_core x | KLib l => lib_concat_ok l end.
